@@ -34,6 +34,9 @@ func init() {
 }
 
 func daemonMain() {
+	if os.Getenv("C20_CRASH") != "" {
+		os.Exit(3) // a daemon that dies before it ever calls Done()
+	}
 	if ms, _ := strconv.Atoi(os.Getenv("C20_DELAY_MS")); ms > 0 {
 		time.Sleep(time.Duration(ms) * time.Millisecond)
 	}
@@ -56,6 +59,14 @@ func daemonMain() {
 
 func TestMain(m *testing.M) {
 	if os.Getenv("C20_ROLE") == "caller" {
+		if os.Getenv("C20_FAIL_FIRST") != "" {
+			os.Setenv("C20_CRASH", "1")
+			if _, err := daemon.Launch(daemonName); err == nil {
+				fmt.Printf("ERR the launch of a daemon that exits before Done() returned nil\n")
+				os.Exit(0)
+			}
+			os.Unsetenv("C20_CRASH")
+		}
 		pid, err := daemon.Launch(daemonName)
 		if err != nil {
 			fmt.Printf("ERR %v\n", err)
@@ -78,6 +89,7 @@ type kase struct {
 	delayMs, pauseMs int
 	concurrent       int
 	childCaller      bool
+	afterFailed      bool // the same caller process first launches a daemon that dies before Done()
 }
 
 func (k kase) String() string {
@@ -85,10 +97,14 @@ func (k kase) String() string {
 	if k.childCaller {
 		c = "short-lived child"
 	}
-	return fmt.Sprintf("daemonDelay=%dms launcherPause=%dms concurrentLaunches=%d caller=%s", k.delayMs, k.pauseMs, k.concurrent, c)
+	s := fmt.Sprintf("daemonDelay=%dms launcherPause=%dms concurrentLaunches=%d caller=%s", k.delayMs, k.pauseMs, k.concurrent, c)
+	if k.afterFailed {
+		s += " afterFailedLaunch"
+	}
+	return s
 }
 
-func (k kase) nontrivial() bool { return k.pauseMs > k.delayMs || k.concurrent >= 2 }
+func (k kase) nontrivial() bool { return k.pauseMs > k.delayMs || k.concurrent >= 2 || k.afterFailed }
 
 type procInfo struct {
 	state string
@@ -165,6 +181,9 @@ func runCase(k kase) string {
 					cmd.Env = append(cmd.Env, kk+"="+v)
 				}
 				cmd.Env = append(cmd.Env, "C20_ROLE=caller")
+				if k.afterFailed {
+					cmd.Env = append(cmd.Env, "C20_FAIL_FIRST=1")
+				}
 				var out bytes.Buffer
 				cmd.Stdout = &out
 				cmd.Stderr = &out
@@ -198,6 +217,14 @@ func runCase(k kase) string {
 				os.Unsetenv(kk)
 			}
 		}()
+		if k.afterFailed {
+			os.Setenv("C20_CRASH", "1")
+			_, ferr := daemon.Launch(daemonName)
+			os.Unsetenv("C20_CRASH")
+			if ferr == nil {
+				return "the launch of a daemon that exits before ever calling Done() returned nil"
+			}
+		}
 		for i := range results {
 			wg.Add(1)
 			go func(i int) {
@@ -376,7 +403,7 @@ func TestGrid(t *testing.T) {
 				if !rt.Thorough() && child && d == 150 && p == 150 {
 					continue // keep the quick tier short; covered by the thorough tier
 				}
-				k := kase{delayMs: d, pauseMs: p, concurrent: 1, childCaller: child}
+				k := kase{delayMs: d, pauseMs: p, concurrent: 1, childCaller: child, afterFailed: (d+p)%80 == 45}
 				if msg := runCase(k); msg != "" {
 					if strings.HasPrefix(msg, "harness:") {
 						rt.Inconclusivef(t, "%s: %s", k, msg)
@@ -400,6 +427,7 @@ func TestGenerated(t *testing.T) {
 			pauseMs:     rapid.OneOf(rapid.Just(0), rapid.IntRange(1, 300)).Draw(t, "launcherPauseMs"),
 			concurrent:  rapid.SampledFrom([]int{1, 1, 2, 3, 4}).Draw(t, "concurrent"),
 			childCaller: rapid.Bool().Draw(t, "childCaller"),
+			afterFailed: rapid.IntRange(0, 3).Draw(t, "afterFailedLaunch") == 0,
 		}
 		msg := runCase(k)
 		if strings.HasPrefix(msg, "harness:") {
